@@ -1713,15 +1713,20 @@ class Session:
         return int(contains(t, cand.v))
 
     # -- queries -----------------------------------------------------------------------------------------
-    def run_select(self, sel, outer, limit_one=False):
-        """-> (names, iterator of value-lists, decimal-kind flags)."""
+    def run_select(self, sel, outer, limit_one=False, want_ctx=None):
+        """-> (names, iterator of value-lists, decimal-kind flags).
+        want_ctx: a list; if given (plain, non-union select) it receives the select's Scope, and the iterator
+        yields (values, source_binding) pairs (used by INSERT .. SELECT .. ON DUPLICATE KEY UPDATE, whose update
+        expressions may refer to columns of the SELECT's tables)."""
         if sel.get('kind') == 'union':
             return self._run_union(sel, outer)
         scope = Scope(outer)
         for name, csel in sel.get('ctes') or []:
             cn, cr, cd = self.run_select(csel, scope)
             scope.ctes[name] = (cn, [list(r) for r in cr], cd)
-        return self._run_core(sel, scope, limit_one)
+        if want_ctx is not None:
+            want_ctx.append(scope)
+        return self._run_core(sel, scope, limit_one, want_ctx is not None)
 
     def _run_union(self, sel, outer):
         scope = Scope(outer)
@@ -1919,7 +1924,7 @@ class Session:
             self._aliases_of(node[2], out)
             self._aliases_of(node[3], out)
 
-    def _run_core(self, sel, scope, limit_one=False):
+    def _run_core(self, sel, scope, limit_one=False, with_ctx=False):
         colkinds = {}
         if sel['from'] is not None:
             self._from_meta(sel['from'], scope, scope.meta, colkinds)
@@ -2071,6 +2076,11 @@ class Session:
             scope.group = None
             mat.sort(key=lambda kv: kv[0])
             res = [v for _, v in mat]
+        elif with_ctx:
+            res = ((vals, (ctx[0] if ctx else {}) if aggregated else ctx) for vals, ctx in out)
+            if sel['distinct'] or sel['limit'] is not None or sel['offset'] is not None:
+                raise SqlUnsupported('INSERT .. SELECT DISTINCT/LIMIT .. ON DUPLICATE KEY UPDATE')
+            return names, res, deck
         else:
             res = (vals for vals, _ in out)
         if sel['distinct']:
@@ -2155,6 +2165,8 @@ class Session:
         affected = 0
         first_auto = None
         sc = Scope(scope)
+        selscopes = []
+        srcctx = [None]
 
         def source():
             if rows is not None:
@@ -2163,11 +2175,20 @@ class Session:
                         raise _err(1136, "Column count doesn't match value count at row 1")
                     yield [self.ev(e, scope) for e in r]
             else:
-                names, it, _ = self.run_select(sel, scope)
-                for r in it:
-                    if len(r) != len(cols):
-                        raise _err(1136, "Column count doesn't match value count at row 1")
-                    yield list(r)
+                plain = sel.get('kind') == 'select' and sel.get('order') is None and odku is not None
+                if plain:
+                    names, it, _ = self.run_select(sel, scope, want_ctx=selscopes)
+                    for r, ctx in it:
+                        if len(r) != len(cols):
+                            raise _err(1136, "Column count doesn't match value count at row 1")
+                        srcctx[0] = ctx
+                        yield list(r)
+                else:
+                    names, it, _ = self.run_select(sel, scope)
+                    for r in it:
+                        if len(r) != len(cols):
+                            raise _err(1136, "Column count doesn't match value count at row 1")
+                        yield list(r)
 
         for vals in source():
             new = {}
@@ -2199,6 +2220,12 @@ class Session:
                     upd = dict(old)
                     sc.meta = {tname: [c.name for c in t.cols]}
                     sc.binding = {tname: upd, '#values': new}
+                    if selscopes and srcctx[0] is not None:
+                        # columns of the SELECT's tables are visible in the update expressions (after the target's)
+                        src = selscopes[0]
+                        saved_binding, saved_group = src.binding, src.group
+                        src.binding, src.group = srcctx[0], None
+                        sc.parent = src
                     for cn, e in odku:
                         if cn not in t.colmap:
                             raise _err(1054, f"Unknown column '{cn}' in 'field list'")
@@ -2207,6 +2234,9 @@ class Session:
                         if v is None and col.notnull:
                             raise _err(1048, f"Column '{cn}' cannot be null")
                         upd[cn] = coerce(v, col.type, col.cs, cn)
+                    if selscopes and srcctx[0] is not None:
+                        src.binding, src.group = saved_binding, saved_group
+                        sc.parent = scope
                     changed = self._apply_update(t, ck, old, upd)
                     affected += 2 if changed else 0
                     self.row_count = 2 if changed else 0
